@@ -131,13 +131,23 @@ class Sem:
             return [self.listop()]
         if x < 0.4 and in_loop:
             k = r.choice(["BREAK", "CONTINUE"])
-            if r.random() < 0.6:
+            y = r.random()
+            if y < 0.5:
                 return ["IF (%s) {" % self.boolean(2), k, "}"]
+            if y < 0.65:      # inside a free-standing block, with a statement after the block that must not run
+                return ["{", k, "}", self.trace()]
+            if y < 0.75:
+                return ["{", "IF (%s) {" % self.boolean(2), k, "}", self.trace(), "}", self.trace()]
             return [k]
         if x < 0.45 and in_fn:
             k = "RETURN %s" % self.any(1) if r.random() < 0.8 else "RETURN"
-            if r.random() < 0.5:
+            y = r.random()
+            if y < 0.4:
                 return ["IF (%s) {" % self.boolean(2), k, "}"]
+            if y < 0.55:      # inside a free-standing block, with a statement after the block that must not run
+                return ["{", k, "}", self.trace()]
+            if y < 0.7:
+                return ["{", "IF (%s) {" % self.boolean(2), k, "}", self.trace(), "}", self.trace()]
             return [k]
         if x < 0.6:
             out = ["IF (%s) {" % self.boolean(1)] + self.block(d, in_loop, in_fn) + ["}"]
@@ -192,6 +202,12 @@ class Sem:
         name = r.choice(["f", "g", "h"])
         n = r.randint(0, 3)
         params = [r.choice(["a", "p", "q", "l"]) for _ in range(n)] if r.random() < 0.3 else ["p%d" % i for i in range(n)]
+        if r.random() < 0.12:
+            # a procedure with an empty body: the call yields NULL and the caller goes on with its own variables
+            self.procs.append((name, n))
+            args = ", ".join(r.choice(["a", "1", "l", '"v"']) for _ in range(n))
+            return ["PROCEDURE %s(%s) {" % (name, ", ".join(params)), "}", "DISPLAY(%s(%s))" % (name, args), "DISPLAY(a)",
+                    "a <- a", "DISPLAY(%s)" % r.choice(self.vars)]
         saved_vars, saved_lists = self.vars, self.lists
         self.vars = list(dict.fromkeys([p for p in params if p != "l"] + ["a"]))
         self.lists = ["l"] if "l" in params else []
